@@ -172,6 +172,14 @@ func TestC04(t *testing.T) {
 			"or#2":              func(x *xast.Expr) *xast.Expr { return xast.Bin("or", xast.Call("false"), x) },
 			"and#2":             func(x *xast.Expr) *xast.Expr { return xast.Bin("and", xast.Call("true"), x) },
 			"lang#1":            func(x *xast.Expr) *xast.Expr { return xast.Call("lang", x) },
+			// operands of the relational operators convert with number() as well
+			">#1":  func(x *xast.Expr) *xast.Expr { return xast.Bin(">", x, xast.Num("0")) },
+			"<#2":  func(x *xast.Expr) *xast.Expr { return xast.Bin("<", xast.Num("0"), x) },
+			">=#2": func(x *xast.Expr) *xast.Expr { return xast.Bin(">=", xast.Num("100000"), x) },
+			"<=#1": func(x *xast.Expr) *xast.Expr { return xast.Bin("<=", x, xast.Num("100000")) },
+			"<#1n": func(x *xast.Expr) *xast.Expr {
+				return xast.Bin("<", x, xast.Path(true, xast.DS("child", xast.NodeT())))
+			},
 		}
 		for _, k := range sortedFuncKeys(implicit) {
 			wraps = append(wraps, k)
